@@ -193,6 +193,18 @@ class HoldC(EditableModule):
         raise KeyError(methodname)
 
 
+class HoldS(torch.nn.Module):
+    """third sibling object: an nn.Module holding the (scalar) strength parameter and a second, unused one"""
+
+    def __init__(self, s):
+        super().__init__()
+        self.s = torch.nn.Parameter(torch.tensor(float(s), dtype=torch.float64))
+        self.spare = torch.nn.Parameter(torch.tensor([0.5, -0.5], dtype=torch.float64))
+
+    def gets(self):
+        return self.s
+
+
 class HoldW(EditableModule):
     def __init__(self, W0):
         self.W = W0 * 1.0
@@ -210,7 +222,7 @@ for _cls in (NNModel, NNTied, EditModel, EditHoldsNN, EditW):
     for _n in MATH:
         setattr(_cls, _n, _mk_method(_n))
 
-KINDS = ["pure", "nn", "edit", "editnn", "mixed", "sib", "msib"]
+KINDS = ["pure", "nn", "edit", "editnn", "mixed", "sib", "msib", "msib3"]
 
 
 class Repr(object):
@@ -297,6 +309,24 @@ class Repr(object):
                 def f(*a):
                     t.tick()
                     return fn(*a, self.hw.getw(), self.hc.getc(), s)
+                return f
+            self._mk = mk
+        elif kind == "msib3":
+            # three sibling objects of different kinds: EditableModule, EditableModule, nn.Module (two registered parameters)
+            self.hw = HoldW(W0)
+            self.hc = HoldC(c0)
+            self.hs = HoldS(s)
+            self.leaves = [W0, c0]
+            self.params = ()
+            self.objects = [self.hw, self.hc, self.hs]
+
+            def mk(name):
+                fn = MATH[name]
+
+                @make_sibling(self.hw.getw, self.hc.getc, self.hs.gets)
+                def f(*a):
+                    t.tick()
+                    return fn(*a, self.hw.getw(), self.hc.getc(), self.hs.gets())
                 return f
             self._mk = mk
         else:
